@@ -563,22 +563,24 @@ func (c *IPAMController) onBlockUpdated(kvp model.KVPair) {
 	if b.Affinity != nil {
 		if after, ok := strings.CutPrefix(*b.Affinity, "host:"); ok {
 			n = after
-			if old, ok := c.nodesByBlock[blockCIDR]; ok && old != n {
-				// The block's affinity moved straight to another node (we may not have seen the
-				// intermediate update that cleared it): the old node no longer has this block.
-				delete(c.blocksByNode[old], blockCIDR)
-				if len(c.blocksByNode[old]) == 0 {
-					delete(c.blocksByNode, old)
-				}
-			}
-			c.nodesByBlock[blockCIDR] = n
-			if _, ok := c.blocksByNode[n]; !ok {
-				c.blocksByNode[n] = map[string]bool{}
-			}
-			c.blocksByNode[n][blockCIDR] = true
 		}
+	}
+	if n != "" {
+		if old, ok := c.nodesByBlock[blockCIDR]; ok && old != n {
+			// The block's affinity moved straight to another node (we may not have seen the
+			// intermediate update that cleared it): the old node no longer has this block.
+			delete(c.blocksByNode[old], blockCIDR)
+			if len(c.blocksByNode[old]) == 0 {
+				delete(c.blocksByNode, old)
+			}
+		}
+		c.nodesByBlock[blockCIDR] = n
+		if _, ok := c.blocksByNode[n]; !ok {
+			c.blocksByNode[n] = map[string]bool{}
+		}
+		c.blocksByNode[n][blockCIDR] = true
 	} else {
-		// Affinity may have been removed.
+		// Affinity may have been removed, or moved to something that is not a node.
 		if n, ok := c.nodesByBlock[blockCIDR]; ok {
 			delete(c.nodesByBlock, blockCIDR)
 			delete(c.blocksByNode[n], blockCIDR)
